@@ -35,6 +35,7 @@ def run_case(ld, prog, aspects, prefix_hook=None, watchdog_s=8):
                 finite = not any(o[0] == 'cycle' for o in prog['ops'])
                 limit = 24
             o = ob.observe(ds, limit, aspects=aspects, finite=finite)
+            o['ds_ref'] = ds
             if 'scramble' in aspects and status == 'ok' and m.finite:
                 # a fresh build whose *first* accesses are out of order (point
                 # accesses from both ends, by key where offered), then a plain
@@ -256,6 +257,19 @@ def judge_c02(prog, finite, o, res, labels='?'):
     case = {'prog': prog}
     lo = last_op(prog)
     it1 = o.get('iter1')
+    if finite and is_err(it1) and o.get('indexable') is True and not is_err(o.get('len')) \
+            and labels != '?':
+        # iteration fails although the dataset calls itself indexable, has a
+        # length and (checked here) every index in range can be fetched
+        ln = o['len']
+        probes = [ob.guarded(lambda i=i: o['ds_ref'][i]) for i in range(ln)] \
+            if 'ds_ref' in o else None
+        if probes is not None and not any(is_err(p) for p in probes):
+            res.count('indexable_datasets_checked')
+            res.violation('iteration-raised-although-every-index-works', case,
+                          {'iteration': it1, 'len': ln}, sig={'last_op': lo, 'exc': it1[1]})
+            return True
+        return False
     if not finite or it1 is None or is_err(it1) or it1[1]:
         return False
     seq = it1[0]
